@@ -297,6 +297,19 @@ func c15TColor(c *Ctx, p *Prog) {
 	//   - the call is made only where 0 <= X and X < Colors are known;
 	// and the same for SetBg with the background parameter.  Comparisons made in small helpers
 	// (`t.inPalette(fi)`, `foldBright(fi)`) count as if written in place.
+	// First by constant evaluation over the colour counts and a grid of indexes (T18): the calls of
+	// TParm it makes are the behaviour the clause is about.  The symbolic reading below is used when
+	// the function cannot be evaluated.
+	if res := evalTColor(p, fn); res != nil {
+		for _, key := range sortedKeys(res) {
+			if res[key] == "" {
+				c.OK("C15-R3", key, p.pos(fn.Pos()), "decided by evaluating TColor for 8 colour counts and 56x56 index pairs: the capabilities expanded, their order and their indexes are as stated")
+			} else {
+				c.Fail("C15-R3", key, p.pos(fn.Pos()), res[key])
+			}
+		}
+		return
+	}
 	param := map[string]*ssa.Parameter{"SetFg": fn.Params[1], "SetBg": fn.Params[2]}
 	seenCap := map[string]bool{}
 	eachInstr(fn, func(in ssa.Instruction) {
@@ -610,7 +623,24 @@ func c15TPuts(c *Ctx, p *Prog) {
 		}
 		c.Check(okAll, "C15-R4", key, p.pos(in.Pos()), "bounds are guarded non-negative Index results of the same string "+detail)
 	})
-	if n < 3 {
+	searches := tputsSearches(fn)
+	nCut := 0
+	for _, sr := range searches {
+		if sr.cut {
+			nCut++
+			c.OK("C15-R4", fmt.Sprintf("TPuts:cut#%d", nCut), p.pos(sr.call.Pos()), "strings.Cut hands out the text before and after the marker itself: nothing is indexed")
+			// the text after a non-empty marker is strictly shorter: progress
+			if sr.marker != "" {
+				for _, r := range referrers(sr.call) {
+					if ex, ok := r.(*ssa.Extract); ok && ex.Index == 1 {
+						shrinking = append(shrinking, ex)
+						c.Check(len(usesOf(ex)) > 0, "C15-R4", fmt.Sprintf("TPuts:cut#%d:rest-carried-on", nCut), p.pos(ex.Pos()), "the text after the marker is what the scan goes on with")
+					}
+				}
+			}
+		}
+	}
+	if n+nCut < 2 || (n < 3 && nCut == 0) {
 		c.Undecided("C15-R4", "TPuts:slices", p.pos(fn.Pos()), "expected the three reslices of the scanner")
 	}
 	// progress: every back edge of the outer loop is dominated by a shrinking reslice
@@ -619,10 +649,10 @@ func c15TPuts(c *Ctx, p *Prog) {
 	for _, b := range fn.Blocks {
 		for _, s := range b.Succs {
 			if s.Dominates(b) && s != b {
-				// is this the scanning loop (its header contains the Index("$<") call)?
+				// is this the scanning loop (its header contains the search for "$<")?
 				isScan := false
-				for _, in := range s.Instrs {
-					if call, ok := in.(*ssa.Call); ok && calleeName(&call.Call) == "strings.Index" {
+				for _, sr := range searches {
+					if sr.call.Block() == s {
 						isScan = true
 					}
 				}
@@ -633,6 +663,8 @@ func c15TPuts(c *Ctx, p *Prog) {
 				dom := false
 				for _, sh := range shrinking {
 					if sh.Block().Dominates(b) || sh.Block() == b {
+						// a Cut's rest only shrinks the string when it becomes the string: it must
+						// be what the loop goes on with (an edge of a phi) or be used as such
 						dom = true
 					}
 				}
@@ -657,21 +689,13 @@ func tputsSegmentsRule(c *Ctx, p *Prog, rule string) {
 		c.Undecided(rule, "TPuts", "-", "not found")
 		return
 	}
-	type idxInfo struct {
-		call   *ssa.Call
-		marker string
-	}
-	var idxs []idxInfo
-	eachInstr(fn, func(in ssa.Instruction) {
-		if call, ok := in.(*ssa.Call); ok && calleeName(&call.Call) == "strings.Index" && len(call.Call.Args) == 2 {
-			m, ok := constString(call.Call.Args[1])
-			if !ok {
-				c.Undecided(rule, "TPuts:marker", p.pos(in.Pos()), "strings.Index with a non-constant marker")
-				return
-			}
-			idxs = append(idxs, idxInfo{call, m})
+	idxs := tputsSearches(fn)
+	for _, ii := range idxs {
+		if !ii.okMarker {
+			c.Undecided(rule, "TPuts:marker", p.pos(ii.call.Pos()), "a search with a non-constant marker")
+			return
 		}
-	})
+	}
 	if len(idxs) != 2 {
 		c.Undecided(rule, "TPuts:markers", p.pos(fn.Pos()), fmt.Sprintf("expected the opening and the closing marker search, found %d", len(idxs)))
 		return
@@ -682,50 +706,73 @@ func tputsSegmentsRule(c *Ctx, p *Prog, rule string) {
 		}
 		return "terminator"
 	}
-	markerOf := func(v ssa.Value) (int, bool) {
-		for i, ii := range idxs {
-			if v == ssa.Value(ii.call) {
-				return i, true
-			}
-		}
-		return 0, false
-	}
 	c.Check(idxs[0].marker == "$<" && idxs[1].marker == ">", rule, "TPuts:markers", p.pos(idxs[0].call.Pos()),
 		fmt.Sprintf("padding is delimited by %q and %q", idxs[0].marker, idxs[1].marker))
-	// the terminator is searched in the string that starts right after the marker
+	// the rest of the string starts right after the marker, the text before it ends at its position
 	sawSkip := map[int]bool{}
 	sawPrefix := map[int]bool{}
 	var skipTerm ssa.Instruction
-	eachInstr(fn, func(in ssa.Instruction) {
-		sl, ok := in.(*ssa.Slice)
-		if !ok {
-			return
-		}
-		if sl.Low != nil && sl.High == nil {
-			base, k := sl.Low, int64(0)
-			if bo, ok := sl.Low.(*ssa.BinOp); ok && bo.Op == token.ADD {
-				if kk, ok := constInt(bo.Y); ok {
-					base, k = bo.X, kk
-				} else if kk, ok := constInt(bo.X); ok {
-					base, k = bo.Y, kk
+	for i, ii := range idxs {
+		if ii.cut {
+			// strings.Cut hands out exactly the text before and after the separator
+			for _, r := range referrers(ii.call) {
+				ex, ok := r.(*ssa.Extract)
+				if !ok || len(usesOf(ex)) == 0 {
+					continue
+				}
+				switch ex.Index {
+				case 0:
+					sawPrefix[i] = true
+					c.OK(rule, "TPuts:before-"+role(i), p.pos(ex.Pos()), "the text before the "+role(i)+" is what strings.Cut returns as such")
+				case 1:
+					sawSkip[i] = true
+					c.OK(rule, "TPuts:skip-"+role(i), p.pos(ex.Pos()), "the rest of the string is what strings.Cut returns after the "+role(i))
+					if i == 1 {
+						// the place where the rest after the terminator becomes the string to go on with
+						for _, u := range usesOf(ex) {
+							if phi, isPhi := u.(*ssa.Phi); isPhi {
+								for k, e := range phi.Edges {
+									if e == ssa.Value(ex) {
+										pr := phi.Block().Preds[k]
+										skipTerm = pr.Instrs[len(pr.Instrs)-1]
+									}
+								}
+							}
+						}
+					}
 				}
 			}
-			if i, ok := markerOf(base); ok {
-				if i == 1 {
-					skipTerm = in
-				}
-				sawSkip[i] = true
-				c.Check(k == int64(len(idxs[i].marker)) && idxs[i].call.Call.Args[0] == sl.X, rule, "TPuts:skip-"+role(i), p.pos(in.Pos()),
-					fmt.Sprintf("the rest of the string starts %d byte(s) after the position of %q (its length is %d)", k, idxs[i].marker, len(idxs[i].marker)))
-			}
+			continue
 		}
-		if sl.Low == nil && sl.High != nil {
-			if i, ok := markerOf(sl.High); ok {
+		eachInstr(fn, func(in ssa.Instruction) {
+			sl, ok := in.(*ssa.Slice)
+			if !ok {
+				return
+			}
+			if sl.Low != nil && sl.High == nil {
+				base, k := sl.Low, int64(0)
+				if bo, ok := sl.Low.(*ssa.BinOp); ok && bo.Op == token.ADD {
+					if kk, ok := constInt(bo.Y); ok {
+						base, k = bo.X, kk
+					} else if kk, ok := constInt(bo.X); ok {
+						base, k = bo.Y, kk
+					}
+				}
+				if base == ssa.Value(ii.call) {
+					if i == 1 {
+						skipTerm = in
+					}
+					sawSkip[i] = true
+					c.Check(k == int64(len(ii.marker)) && ii.subject == sl.X, rule, "TPuts:skip-"+role(i), p.pos(in.Pos()),
+						fmt.Sprintf("the rest of the string starts %d byte(s) after the position of %q (its length is %d)", k, ii.marker, len(ii.marker)))
+				}
+			}
+			if sl.Low == nil && sl.High == ssa.Value(ii.call) {
 				sawPrefix[i] = true
-				c.Check(idxs[i].call.Call.Args[0] == sl.X, rule, "TPuts:before-"+role(i), p.pos(in.Pos()), "the text before the "+role(i)+" is the prefix up to its position in the same string")
+				c.Check(ii.subject == sl.X, rule, "TPuts:before-"+role(i), p.pos(in.Pos()), "the text before the "+role(i)+" is the prefix up to its position in the same string")
 			}
-		}
-	})
+		})
+	}
 	for i := 0; i < 2; i++ {
 		if !sawSkip[i] {
 			c.Fail(rule, "TPuts:skip-"+role(i), p.pos(fn.Pos()), "no reslice past the "+role(i))
@@ -735,17 +782,7 @@ func tputsSegmentsRule(c *Ctx, p *Prog, rule string) {
 		}
 	}
 	// the search for the terminator runs on the string that follows the marker
-	if sl, ok := idxs[1].call.Call.Args[0].(*ssa.Slice); ok {
-		_, isAfter := func() (int, bool) {
-			if bo, ok := sl.Low.(*ssa.BinOp); ok {
-				return markerOf(bo.X)
-			}
-			return 0, false
-		}()
-		c.Check(isAfter, rule, "TPuts:terminator-searched-after-marker", p.pos(idxs[1].call.Pos()), "the terminator is searched in the text following the marker")
-	} else {
-		c.Fail(rule, "TPuts:terminator-searched-after-marker", p.pos(idxs[1].call.Pos()), "the terminator is not searched in the text following the marker")
-	}
+	c.Check(idxs[0].isAfter(idxs[1].subject), rule, "TPuts:terminator-searched-after-marker", p.pos(idxs[1].call.Pos()), "the terminator is searched in the text following the marker")
 	// writes: classify every io.WriteString argument
 	nWrites := 0
 	okWhole, okPrefix, okVerbatim := false, false, false
@@ -757,31 +794,20 @@ func tputsSegmentsRule(c *Ctx, p *Prog, rule string) {
 		}
 		nWrites++
 		arg := cc.Args[1]
-		g := guardsAt(in.Block())
-		switch x := arg.(type) {
-		case *ssa.Slice:
-			if i, ok := markerOf(x.High); ok && i == 0 && x.Low == nil && hasAtom(g, Atom{valName(idxs[0].call), ">=", "0"}) {
-				okPrefix = true
-				return
-			}
-		case *ssa.BinOp:
-			if x.Op == token.ADD {
-				if m, ok := constString(x.X); ok {
-					// "$<" + rest, under end < 0
-					rest, isSl := x.Y.(*ssa.Slice)
-					good := m == idxs[0].marker && isSl && rest == idxs[1].call.Call.Args[0] && hasAtom(g, Atom{valName(idxs[1].call), "<", "0"})
-					c.Check(good, rule, "TPuts:unterminated-verbatim", p.pos(in.Pos()), fmt.Sprintf("an unterminated specification is written as %q followed by the text after the marker", m))
-					okVerbatim = good
-					return
-				}
-			}
-		case *ssa.Phi:
-			if x == idxs[0].call.Call.Args[0] && hasAtom(g, Atom{valName(idxs[0].call), "<", "0"}) {
-				okWhole = true
+		if idxs[0].isBefore(arg) && idxs[0].foundAt(in.Block(), true) {
+			okPrefix = true
+			return
+		}
+		if x, isBO := arg.(*ssa.BinOp); isBO && x.Op == token.ADD {
+			if m, ok := constString(x.X); ok {
+				// "$<" + rest, where no terminator was found
+				good := m == idxs[0].marker && x.Y == idxs[1].subject && idxs[1].foundAt(in.Block(), false)
+				c.Check(good, rule, "TPuts:unterminated-verbatim", p.pos(in.Pos()), fmt.Sprintf("an unterminated specification is written as %q followed by the text after the marker", m))
+				okVerbatim = good
 				return
 			}
 		}
-		if arg == idxs[0].call.Call.Args[0] && hasAtom(g, Atom{valName(idxs[0].call), "<", "0"}) {
+		if arg == idxs[0].subject && idxs[0].foundAt(in.Block(), false) {
 			okWhole = true
 			return
 		}
@@ -791,7 +817,7 @@ func tputsSegmentsRule(c *Ctx, p *Prog, rule string) {
 		}
 		c.Fail(rule, "TPuts:write:"+valName(arg), p.pos(in.Pos()), "a write that is neither the text before a marker, the unterminated remainder, the kept marker of an ill-formed specification, nor the padding-free string")
 	})
-	tputsGrammar(c, p, fn, rule, skipTerm, rejectWrites)
+	tputsGrammar(c, p, fn, rule, skipTerm, rejectWrites, idxs[1].before())
 	c.Check(okWhole, rule, "TPuts:no-padding-verbatim", p.pos(fn.Pos()), "a string without a padding marker is written whole")
 	c.Check(okPrefix, rule, "TPuts:prefix-written", p.pos(fn.Pos()), "the text before each padding marker is written")
 	if !okVerbatim {
@@ -822,21 +848,10 @@ func tputsSegmentsRule(c *Ctx, p *Prog, rule string) {
 // and that path does not skip the terminator; (iii) the terminator is skipped
 // only under two boolean facts, one falsified by the reject case and one made
 // true only by a digit (a specification without a number is not one).
-func tputsGrammar(c *Ctx, p *Prog, fn *ssa.Function, rule string, skipTerm ssa.Instruction, rejects []ssa.Instruction) {
+func tputsGrammar(c *Ctx, p *Prog, fn *ssa.Function, rule string, skipTerm ssa.Instruction, rejects []ssa.Instruction, spec ssa.Value) {
 	if skipTerm == nil {
 		return // reported by the segmentation part
 	}
-	// the specification: the prefix slice up to the terminator
-	var spec ssa.Value
-	eachInstr(fn, func(in ssa.Instruction) {
-		if sl, ok := in.(*ssa.Slice); ok && sl.Low == nil && sl.High != nil {
-			if call, ok := sl.High.(*ssa.Call); ok && calleeName(&call.Call) == "strings.Index" {
-				if m, _ := constString(call.Call.Args[1]); m == ">" {
-					spec = sl
-				}
-			}
-		}
-	})
 	if spec == nil {
 		c.Undecided(rule, "TPuts:grammar", p.pos(fn.Pos()), "the specification text was not found")
 		return
@@ -1152,13 +1167,11 @@ func tputsGrammar(c *Ctx, p *Prog, fn *ssa.Function, rule string, skipTerm ssa.I
 			skipsAfter := false
 			if gate == nil || true {
 				var hdrT *ssa.BasicBlock
-				eachInstr(fn, func(in ssa.Instruction) {
-					if call, ok := in.(*ssa.Call); ok && calleeName(&call.Call) == "strings.Index" {
-						if m, _ := constString(call.Call.Args[1]); m == "$<" {
-							hdrT = call.Block()
-						}
+				for _, sr := range tputsSearches(fn) {
+					if sr.marker == "$<" {
+						hdrT = sr.call.Block()
 					}
-				})
+				}
 				seenB := map[*ssa.BasicBlock]bool{}
 				var stack []*ssa.BasicBlock
 				for _, w := range rejects {
@@ -1293,13 +1306,11 @@ func tputsGrammar(c *Ctx, p *Prog, fn *ssa.Function, rule string, skipTerm ssa.I
 	}
 	// loop header of the marker scan: the block holding the Index(s, "$<") call
 	var hdr *ssa.BasicBlock
-	eachInstr(fn, func(in ssa.Instruction) {
-		if call, ok := in.(*ssa.Call); ok && calleeName(&call.Call) == "strings.Index" {
-			if m, _ := constString(call.Call.Args[1]); m == "$<" {
-				hdr = call.Block()
-			}
+	for _, sr := range tputsSearches(fn) {
+		if sr.marker == "$<" {
+			hdr = sr.call.Block()
 		}
-	})
+	}
 	if def == nil || hdr == nil {
 		c.Fail(rule, "TPuts:ill-formed-kept", p.pos(fn.Pos()), "the specification scanner has no case for a byte outside the grammar: whatever stands between $< and > is removed")
 		return
@@ -1628,4 +1639,107 @@ func blockHasVarPhi(b *ssa.BasicBlock) bool {
 		}
 	}
 	return false
+}
+
+// ---- marker searches of TPuts, whatever the library call ------------------------------------------
+
+// tputsSearch: one search for a constant marker in a string, as strings.Index (position; the text
+// before and after are reslices at that position) or as strings.Cut (before, after, found).
+type tputsSearch struct {
+	call     *ssa.Call
+	subject  ssa.Value
+	marker   string
+	okMarker bool
+	cut      bool
+}
+
+func tputsSearches(fn *ssa.Function) []tputsSearch {
+	var out []tputsSearch
+	eachInstr(fn, func(in ssa.Instruction) {
+		call, ok := in.(*ssa.Call)
+		if !ok || len(call.Call.Args) != 2 {
+			return
+		}
+		n := calleeName(&call.Call)
+		if n != "strings.Index" && n != "strings.Cut" {
+			return
+		}
+		m, okM := constString(call.Call.Args[1])
+		out = append(out, tputsSearch{call, call.Call.Args[0], m, okM, n == "strings.Cut"})
+	})
+	return out
+}
+
+// usesOf: the instructions using v, debug references aside.
+func usesOf(v ssa.Value) []ssa.Instruction {
+	var out []ssa.Instruction
+	for _, r := range referrers(v) {
+		if _, isDbg := r.(*ssa.DebugRef); !isDbg {
+			out = append(out, r)
+		}
+	}
+	return out
+}
+
+// isBefore: v is the text before the marker.
+func (t tputsSearch) isBefore(v ssa.Value) bool {
+	if t.cut {
+		ex, ok := v.(*ssa.Extract)
+		return ok && ex.Tuple == ssa.Value(t.call) && ex.Index == 0
+	}
+	sl, ok := v.(*ssa.Slice)
+	return ok && sl.Low == nil && sl.High == ssa.Value(t.call) && sl.X == t.subject
+}
+
+// before: the value that is the text before the marker (nil if the function never takes it).
+func (t tputsSearch) before() ssa.Value {
+	var out ssa.Value
+	eachInstr(t.call.Parent(), func(in ssa.Instruction) {
+		if v, ok := in.(ssa.Value); ok && out == nil && t.isBefore(v) {
+			out = v
+		}
+	})
+	return out
+}
+
+// isAfter: v is the text after the marker.
+func (t tputsSearch) isAfter(v ssa.Value) bool {
+	if t.cut {
+		ex, ok := v.(*ssa.Extract)
+		return ok && ex.Tuple == ssa.Value(t.call) && ex.Index == 1
+	}
+	sl, ok := v.(*ssa.Slice)
+	if !ok || sl.High != nil || sl.X != t.subject {
+		return false
+	}
+	bo, ok := sl.Low.(*ssa.BinOp)
+	if !ok || bo.Op != token.ADD {
+		return false
+	}
+	return bo.X == ssa.Value(t.call) || bo.Y == ssa.Value(t.call)
+}
+
+// foundAt: in block b it is known that the marker was found (want) or was not found (!want).
+func (t tputsSearch) foundAt(b *ssa.BasicBlock, want bool) bool {
+	if t.cut {
+		for _, g := range rawGuardsAt(b) {
+			cond, pos := g.Cond, g.Positive
+			for {
+				if u, ok := cond.(*ssa.UnOp); ok && u.Op == token.NOT {
+					cond, pos = u.X, !pos
+					continue
+				}
+				break
+			}
+			if ex, ok := cond.(*ssa.Extract); ok && ex.Tuple == ssa.Value(t.call) && ex.Index == 2 && pos == want {
+				return true
+			}
+		}
+		return false
+	}
+	g := guardsAt(b)
+	if want {
+		return hasAtom(g, Atom{valName(t.call), ">=", "0"})
+	}
+	return hasAtom(g, Atom{valName(t.call), "<", "0"})
 }
